@@ -24,6 +24,7 @@ func TestClusterLockSection(t *testing.T) {
 	g := &Gate{Free: true}
 	env := NewEnv(t, TempDir(t), g, nil)
 	jit := vt.StartJitter()
+	jit.Probe(func() { _, _ = env.etcdCli().Get(context.Background(), "/verif-probe") }, 300*time.Millisecond)
 	defer jit.Stop()
 	run := 0
 	all := []NodeSpec{{Name: "n1", Pod: "p1", Kind: "plain2"}, {Name: "n2", Pod: "p2", Kind: "plain2"}, {Name: "n3", Pod: "p3", Kind: "plain2"}}
